@@ -120,6 +120,7 @@ func post(c *ev.Check, outs []*run.Outcome) {
 	for _, k := range []string{"start", "register", "auth", "report", "rotate", "restart"} {
 		c.Require("achieved."+k, 1)
 	}
+	c.Require("sigcut.recovered", 1)
 	c.Require("ops.migrate_acked", 3)
 	c.Require("ops.storm_auth_acked", 3)
 }
@@ -135,6 +136,7 @@ func plan(tier string, seed int64) []run.Batch {
 	if tier == "thorough" {
 		nh, sysSlices, bndHist, bndSlices, rndBatches, rndKills = 30, 3, 30, 1, 25, 40
 	}
+	add("sigcut", seed*1000+777, nil)
 	for h := 0; h < nh; h++ {
 		for k := 0; k < sysSlices; k++ {
 			add("sys", seed*1000+int64(h), map[string]string{"h": fmt.Sprint(h), "slice": fmt.Sprint(k), "of": fmt.Sprint(sysSlices)})
@@ -1397,6 +1399,10 @@ func censusOf(evs []sevent, srv, oplogPath string) map[int][]sevent {
 }
 
 func child(b run.Batch, r *ev.Result) {
+	if b.Kind == "sigcut" {
+		childSigCut(b, r)
+		return
+	}
 	exe, err := os.Executable()
 	if err != nil {
 		r.Inconc("os.Executable: " + err.Error())
